@@ -21,7 +21,37 @@ def observed_events(extras):
     if tr is None:
         return None
     _, stats = tracecheck.check_trace(tr, None, normal_exit=False)
-    return [mm.norm_event(k, p) for k, p in stats["modules"]]
+    return [mm.norm_event(k, p, extras.get("base")) for k, p in stats["modules"]]
+
+
+def run_launch(files, launch, mode):
+    """Run a project that lives in <case>/proj/ with the entry named as seen from its own directory ('cwd'), by a
+    relative path from the parent directory ('parent': cwd != entry directory) or by an absolute path ('abs').
+    -> (Res, extras) like core.run_program."""
+    d = core.case_dir("c11l")
+    try:
+        core.write_files(d, {"proj/" + k: v for k, v in files.items()})
+        if launch == "cwd":
+            cwd, entry, base = os.path.join(d, "proj"), "main.ms", None
+        elif launch == "parent":
+            cwd, entry, base = d, "proj/main.ms", "proj"
+        else:
+            cwd, entry, base = d, os.path.join(d, "proj", "main.ms"), os.path.join(d, "proj")
+        tr = os.path.join(d, "_trace.log")
+        env = {"MSCRIPT_VERIF_TRACE": tr}
+        extras = {"base": base}
+        if mode == "run":
+            r = core.run(core.ms("run", entry, "-q"), cwd, env, cpu=10)
+        else:
+            r1 = core.run(core.ms("compile", entry, "--quick"), cwd, env, cpu=10)
+            extras["compile"] = r1
+            r = core.run(core.ms("execute", entry[:-3] + ".mmm"), cwd, env, cpu=10) if r1.cls == "ok" else r1
+        if os.path.exists(tr):
+            with open(tr, encoding="utf-8", errors="replace") as f:
+                extras["trace"] = f.read()
+        return r, extras
+    finally:
+        core.rm(d)
 
 
 def rejected(r, extras):
@@ -30,19 +60,22 @@ def rejected(r, extras):
     return "Did not compile successfully" in text and core.BANNER not in r.err
 
 
-def run_modes(files):
+def run_modes(files, launch=None):
     """-> list of (mode, Res, extras)"""
     out = []
     for mode in ("run", "compile_execute"):
-        r, _, extras = core.run_program(files, mode=mode, trace=True, cpu=10)
+        if launch:
+            r, extras = run_launch(files, launch, mode)
+        else:
+            r, _, extras = core.run_program(files, mode=mode, trace=True, cpu=10)
         out.append((mode, r, extras))
     return out
 
 
-def check_project(files, exp_lines, exp_events):
+def check_project(files, exp_lines, exp_events, launch=None):
     """Run both ways and compare.  -> dict(runs, problems[], rejected, inconclusive, events_checked)"""
     res = {"runs": 0, "problems": [], "rejected": None, "inconclusive": None, "events_checked": 0}
-    for mode, r, extras in run_modes(files):
+    for mode, r, extras in run_modes(files, launch):
         if r.cls in ("wall_timeout", "spawn_error", "cpu_timeout"):
             res["inconclusive"] = "%s: %s" % (mode, r.cls)
             return res
@@ -60,14 +93,16 @@ def check_project(files, exp_lines, exp_events):
             res["problems"].append({"mode": mode, "deviation": dev[0], "detail": dev[1], "expected_lines": exp_lines,
                                     "observed_lines": r.lines(), "expected_events": [list(e) for e in exp_events],
                                     "observed_events": [list(e) for e in ev],
-                                    "run": r.brief() if r.cls != "ok" else {"cls": r.cls}, "files": files})
+                                    "run": r.brief() if r.cls != "ok" else {"cls": r.cls}, "files": files,
+                                    "launch": launch or "cwd"})
     return res
 
 
 def work_spec(item):
-    kind, ident, spec = item
+    kind, ident, spec = item[:3]
+    launch = item[3] if len(item) > 3 else None
     b = mm.build(spec, MODE)
-    res = check_project(b["files"], b["lines"], b["events"])
+    res = check_project(b["files"], b["lines"], b["events"], launch)
     res.update({"kind": kind, "id": ident, "stats": b["stats"], "hash": core.h(b["files"]), "n": spec["n"],
                 "edges": len(spec["edges"]), "lines": len(b["lines"]), "sample": None})
     if not res["problems"] and kind in ("enum", "rand") and spec["n"] >= 3 and len(spec["edges"]) >= 3:
@@ -133,8 +168,15 @@ def build_items(ctx):
     for ident, spec in mm.enumerate_space(3, positions):
         items.append(("enum", "/".join(ident), spec))
         n_enum += 1
+    n_type = 0
+    for ident, spec in mm.type_form_space(3):
+        items.append(("enum", "/".join(ident), spec))
+        n_type += 1
     n4 = 0
     if not ctx.quick:
+        for ident, spec in mm.sampled_space(4, ("S", "T", "M"), 1, "c11-n4t"):
+            items.append(("enum", "/".join(ident), spec))
+            n4 += 1
         for ident, spec in mm.sampled_space(4, ("S", "N", "SN"), 2, "c11-n4"):
             items.append(("enum", "/".join(ident), spec))
             n4 += 1
@@ -156,6 +198,9 @@ def build_items(ctx):
     for ident, cls, spec in mm.spelling_cases(full=not ctx.quick):
         items.append(("spell", "spelling:" + cls, spec))
         n_sp += 1
+    for ident, launch, spec in mm.spelling_launch_family():
+        items.append(("spell", ident, spec, launch))
+        n_sp += 1
     items.append(("pin", "pin:importer_holds_captured_name", mm.PIN_C07_FILES, mm.PIN_C07_LINES, mm.PIN_C07_EVENTS))
     items.append(("cat", "cat:conditional_import", mm.PIN_COND_FILES, mm.PIN_COND_LINES, mm.PIN_COND_EVENTS))
     for ident, files, lines, events in mm.local_copy_cases():
@@ -169,7 +214,7 @@ def build_items(ctx):
                 continue
             seen.add(key)
         uniq.append(it)
-    counts = {"enumerated_specs": n_enum + n4, "enumerated_distinct_projects": len(seen), "random_projects": n_rand,
+    counts = {"enumerated_specs": n_enum + n4 + n_type, "type_form_specs": n_type, "enumerated_distinct_projects": len(seen), "random_projects": n_rand,
               "negative_twins": n_neg, "spelling_cases": n_sp, "positions": list(positions)}
     return uniq, counts
 
@@ -242,7 +287,11 @@ def run(ctx):
                 "2..3 modules whose nodes are all reachable from the entry x import form per edge {import m | import "
                 "names from m | both, either order} x placement of each import {%s} relative to the importer's own "
                 "side-effecting statements x statement order of an importer's imports x directory placement (same "
-                "directory / sub/), duplicates by source text removed%s; negative twins: every DAG x every edge x 6 "
+                "directory / sub/), duplicates by source text removed%s; type-form family: every DAG x form per edge {import m | import type T from m | "
+                "type-only then import m | import type T, names from m} x {all pre | all post} x orders; spelling family: "
+                "ma imported as m / ./m by the entry and by a sibling, beside the entry or in sub/, either order, entry "
+                "started from its directory / by relative path from the parent / by absolute path; "
+                "negative twins: every DAG x every edge x 6 "
                 "violation kinds; seeded part: random DAGs on 4 and 5 modules incl. imports in executed / non-executed "
                 "blocks.  Each project = 2 evaluations (`run`; `compile`+`execute`), each compared on exact stdout "
                 "and the H-MOD event sequence.  Non-trivial/distinct = distinct project text with >= 1 import edge."
@@ -285,7 +334,7 @@ def replay(path):
         return 0 if not bad else 1
     exp_events = [tuple(e) for e in w["expected_events"]]
     bad = 0
-    for mode, r, extras in run_modes(files):
+    for mode, r, extras in run_modes(files, None if w.get("launch", "cwd") == "cwd" else w["launch"]):
         ev = observed_events(extras)
         dev = mm.compare(w["expected_lines"], r.lines(), exp_events, ev, r.cls == "ok")
         print(mode, "->", r.cls, dev or "agrees")
